@@ -108,6 +108,7 @@ fn clock_for(cfg: &Config, incarnation: u64) -> u64 {
         Clock::Forward => BASE + incarnation * 1000,
         Clock::Backward => BASE - incarnation * 1000,
         Clock::Real => 0,
+        Clock::Fixed => BASE,
     }
 }
 
